@@ -70,6 +70,8 @@ def sites(path):
 def main():
     if sys.argv[1] == "report":
         return report()
+    if sys.argv[1] == "recheck":
+        return recheck()
     if sys.argv[1] == "clean":
         for d in sorted(os.listdir(ROOT)) if os.path.isdir(ROOT) else []:
             if d.startswith("w"):
@@ -143,10 +145,60 @@ def main():
         done += 1
 
 
+def recheck():
+    """second chance for survivors that the anchoring properties' checks missed: the mutated helper may be used by
+    code that other properties anchor; run the remaining checks (same directory first) until one reports a violation"""
+    rows, srcs = [], {}
+    for fn in sorted(os.listdir(OUT)):
+        if fn.endswith(".jsonl") and fn.startswith("w"):
+            for l in open(os.path.join(OUT, fn)):
+                rows.append(json.loads(l))
+    files = anchored()
+    wt, vv = os.path.join(ROOT, "w9"), os.path.join(ROOT, "v9")
+    os.makedirs(ROOT, exist_ok=True)
+    if not os.path.isdir(wt):
+        rc, o = sh("git -C /repo worktree add --detach %s HEAD" % wt)
+        assert rc == 0, o
+    env = dict(os.environ, CARGO_NET_OFFLINE="true")
+    done = set()
+    rp = os.path.join(OUT, "recheck.jsonl")
+    if os.path.exists(rp):
+        done = {(r["file"], r["line"], r["after"]) for r in map(json.loads, open(rp))}
+    log = open(rp, "a")
+    allp = ["C%02d" % i for i in range(2, 21) if i not in (11, 15)]
+    for r in rows:
+        if r["baseline"] != "survives" or r.get("detected_by") or (r["file"], r["line"], r["after"]) in done:
+            continue
+        if r.get("checks") and all(c.get("tool_error") and not c.get("violations") for c in r["checks"].values()):
+            continue
+        sh("git checkout -- .", cwd=wt)
+        path = os.path.join(wt, r["file"])
+        lines = open(path).read().split("\n")
+        if lines[r["line"] - 1].strip() != r["before"]:
+            continue
+        lines[r["line"] - 1] = lines[r["line"] - 1].replace(r["before"], r["after"])
+        open(path, "w").write("\n".join(lines))
+        d = os.path.dirname(r["file"])
+        order = sorted([p for p in allp if p not in r["props"][:4]], key=lambda p: (0 if any(os.path.dirname(f) == d and p in ps for f, ps in files.items()) else 1, p))
+        found, tried = None, []
+        for cp in order:
+            sh("rsync -a --delete --exclude work --exclude .git --exclude evidence --exclude seeded --exclude experiments %s/ %s/" % (VERIF, vv))
+            os.makedirs(os.path.join(vv, "evidence"), exist_ok=True)
+            sh("sed -i 's#path = \"/repo\"#path = \"%s\"#' harness/Cargo.toml leak/Cargo.toml" % wt, cwd=vv)
+            rc2, o2 = sh("./check %s quick 2>&1 | cut -c1-300" % cp, cwd=vv, env=env, timeout=5400)
+            tried.append(cp)
+            if any(l.startswith("VIOLATION") for l in o2.splitlines()):
+                found = cp
+                break
+        log.write(json.dumps(dict(file=r["file"], line=r["line"], before=r["before"], after=r["after"], detected_by=found, tried=tried)) + "\n")
+        log.flush()
+        sh("git checkout -- .", cwd=wt)
+
+
 def report():
     rows = []
     for fn in sorted(os.listdir(OUT)):
-        if fn.endswith(".jsonl"):
+        if fn.endswith(".jsonl") and fn.startswith("w"):
             rows += [json.loads(l) for l in open(os.path.join(OUT, fn))]
     n = len(rows)
     # a mutant in feature-gated code can pass the default-feature suite without ever being compiled: if every check
